@@ -2,7 +2,7 @@
    reader loop and the iterator loop AS COMPILED FROM THE SOURCE deliver the same trees. *)
 From Coq Require Import ZArith List Bool Lia.
 From DV Require Import Model.PyPrims Model.C13Model Model.C13GenPrims Gen.Routes Proofs.C13GenStmts
-  Proofs.C13GenReader Proofs.C13GenYielder Proofs.C13GenNewick Proofs.C13Full.
+  Proofs.C13GenWf Proofs.C13GenReader Proofs.C13GenYielder Proofs.C13GenNewick Proofs.C13GenGlue Proofs.C13GenEntry Proofs.C13Full.
 Import ListNotations.
 
 Section S.
@@ -14,6 +14,7 @@ Variable add_comments : T -> list str -> T.
 
 (* the iterator equalities without the auxiliary ymap *)
 Lemma G_yield_from_trees_block : forall (c : nscfg) (et : bool) (fuel : nat) (k : core) (g : regs) (tls : list (tlval T)) (reg : list nat),
+  wfs c k g ->
   let Y := y_trees_block T lower upper parse_tree set_label add_comments true c et fuel k g in
   g_yield_from_trees_block T lower upper parse_tree set_label add_comments c et fuel (mkRs k g tls reg)
   = (fst Y, match snd Y with
@@ -22,11 +23,12 @@ Lemma G_yield_from_trees_block : forall (c : nscfg) (et : bool) (fuel : nat) (k 
             | OutOfFuel => OutOfFuel
             end).
 Proof.
-  intros. subst Y. rewrite g_yield_from_trees_block_eq. unfold ymap, rmap.
+  intros c et fuel k g tls reg WF Y. subst Y. rewrite g_yield_from_trees_block_eq by exact WF. unfold ymap, rmap.
   destruct (y_trees_block _ _ _ _ _ _ _ _ _ _ _ _) as [out [[k' g']| |]]; reflexivity.
 Qed.
 
 Lemma G_yield_items_from_stream : forall (c : nscfg) (et : bool) (fuel : nat) (k : core) (g : regs) (tls : list (tlval T)) (reg : list nat),
+  wfs c k g ->
   let Y := y_items_from_stream T lower upper parse_tree set_label add_comments true c et fuel k g in
   g_yield_items_from_stream T lower upper parse_tree set_label add_comments c et fuel (mkRs k g tls reg) tt
   = (fst Y, match snd Y with
@@ -35,7 +37,7 @@ Lemma G_yield_items_from_stream : forall (c : nscfg) (et : bool) (fuel : nat) (k
             | OutOfFuel => OutOfFuel
             end).
 Proof.
-  intros. subst Y. rewrite g_yield_items_from_stream_eq. unfold ymap, rmap.
+  intros c et fuel k g tls reg WF Y. subst Y. rewrite g_yield_items_from_stream_eq by exact WF. unfold ymap, rmap.
   destruct (y_items_from_stream _ _ _ _ _ _ _ _ _ _ _ _) as [out [[k' g']| |]]; reflexivity.
 Qed.
 
@@ -61,6 +63,40 @@ Lemma G_newick_tree_iter : forall (fuel : nat) (k : core) (g : regs) (tls : list
          mkRs (after_tree k ns m' z') g (fold_left (fun a t => tl_append T a tb t) ts tls) reg)).
 Proof. exact (g_newick_tree_iter_eq T lower parse_tree). Qed.
 
+(* ---- TreeArray.read on the compiled iterators ---- *)
+(* the iterator object Tree.yield_from_files([one file], schema, taxon_namespace=ns) returns: the compiled
+   _yield_items_from_stream of the schema's iterator class on a fresh state over the document *)
+Definition yielder_of {X : Type} (a : yres T X) : yielder_t T :=
+  (fst a, match snd a with Ok _ => Ok tt | Err e => Err e | OutOfFuel => OutOfFuel end).
+Definition yield_cfg : nscfg := mkNsCfg true (FacFixed false).
+Definition route_yielder (sch : schema) (ns0 : list str) (d : doc) : yielder_t T :=
+  let s0 := mkRs (core_init yield_cfg ns0 d) (regs_init yield_cfg) [] [] in
+  match sch with
+  | Nexus => yielder_of (g_yield_items_from_stream T lower upper parse_tree set_label add_comments yield_cfg false (doc_fuel d) s0 tt)
+  | Newick => yielder_of (g_newick_yield_items_from_stream T lower parse_tree (doc_fuel d) s0 tt)
+  end.
+
+Lemma G_treearray_read : forall (sch : schema) (k : Z) (ns0 : list str) (d : doc),
+  let A := treearray_read T lower upper parse_tree set_label add_comments true sch k ns0 d in
+  g_treearray_read_from_files T (doc_fuel d) tt (route_yielder sch ns0 d) k []
+  = match snd A with
+    | Ok _ => Ok (tt, fst A, tt)
+    | Err e => Err e
+    | OutOfFuel => OutOfFuel
+    end.
+Proof.
+  intros sch k ns0 d A. subst A. rewrite g_treearray_read_eq. unfold treearray_read, yield_from_files, route_yielder.
+  destruct sch.
+  - rewrite g_newick_yield_eq. unfold core_init, yield_cfg. cbn [has_ns0 c_fac ns_taxa_at k_nss nth k_z].
+    destruct (newick_yield_loop T parse_tree (doc_fuel d) (new_mapper lower ns0 false) (doc_tz d)) as [out [[m z]| |]];
+      reflexivity.
+  - rewrite g_yield_items_from_stream_eq by (apply (nexus_init_wf T yield_cfg (mkCfg yield_cfg TLNew) ns0 d eq_refl)).
+    unfold cfg_yield, yield_cfg. cbn [c_ns].
+    destruct (y_items_from_stream T lower upper parse_tree set_label add_comments true (mkNsCfg true (FacFixed false)) false (doc_fuel d)
+                (core_init (mkNsCfg true (FacFixed false)) ns0 d) (regs_init (mkNsCfg true (FacFixed false)))) as [out [[k' g']| |]];
+      reflexivity.
+Qed.
+
 Hypothesis H_consumes : forall m z ot m' z',
   parse_tree m z = Ok (ot, m', z') -> exists pre, z_toks z = pre ++ z_toks z'.
 Hypothesis H_upper : forall s, upper (upper s) = upper s.
@@ -84,13 +120,37 @@ Proof.
   intros nc tlf ns0 d Y R.
   pose proof (F_nexus_loops_agree T lower upper parse_tree set_label add_comments true H_consumes H_upper nc tlf ns0 d) as F.
   cbv zeta in F. subst Y R.
-  rewrite g_yield_items_from_stream_eq, g_parse_nexus_stream_eq.
+  pose proof (nexus_init_wf T nc (mkCfg nc tlf) ns0 d eq_refl) as WI.
+  rewrite g_yield_items_from_stream_eq by exact WI.
+  rewrite g_parse_nexus_stream_eq by exact WI.
   unfold nexus_read in F. cbn [c_ns c_tlfac] in F.
   destruct (y_items_from_stream T lower upper parse_tree set_label add_comments true nc false (doc_fuel d)
               (core_init nc ns0 d) (regs_init nc)) as [out [[k' g']| |]]; cbn [snd fst ymap rmap] in *.
   - destruct F as [s [F1 [F2 [F3 F4]]]]. exists s. rewrite F1. cbn [bind r_k r_g]. repeat split; assumption.
   - rewrite F. reflexivity.
   - rewrite F. reflexivity.
+Qed.
+
+(* routes_agree_nexus_full of Props/C13.v on the compiled code alone: TreeList.read (compiled entry point, compiled
+   read_tree_lists / _read / reader loops) delivers what the compiled iterator delivers, with the same error *)
+Lemma G_routes_agree : forall (ns0 : list str) (d : doc) (tl0 : list T),
+  let Y := g_yield_items_from_stream T lower upper parse_tree set_label add_comments yield_cfg false (doc_fuel d)
+             (mkRs (core_init yield_cfg ns0 d) (regs_init yield_cfg) [] []) tt in
+  g_treelist_parse_and_create_from_stream T (doc_fuel d) tt
+    (route_reader_ns T lower upper parse_tree set_label add_comments Nexus ns0) d None None tl0
+  = match snd Y with
+    | Ok _ => Ok (tl0 ++ fst Y, tt)
+    | Err e => Err e
+    | OutOfFuel => OutOfFuel
+    end.
+Proof.
+  intros ns0 d tl0 Y. subst Y. rewrite g_treelist_read_eq.
+  rewrite (F_routes_agree_nexus T lower upper parse_tree set_label add_comments true H_consumes H_upper ns0 d).
+  rewrite g_yield_items_from_stream_eq by (apply (nexus_init_wf T yield_cfg (mkCfg yield_cfg TLNew) ns0 d eq_refl)).
+  unfold yield_from_files, cfg_yield, yield_cfg. cbn [c_ns].
+  destruct (y_items_from_stream T lower upper parse_tree set_label add_comments true (mkNsCfg true (FacFixed false)) false (doc_fuel d)
+              (core_init (mkNsCfg true (FacFixed false)) ns0 d) (regs_init (mkNsCfg true (FacFixed false)))) as [out [[k' g']| |]];
+    reflexivity.
 Qed.
 
 End S.
